@@ -354,6 +354,39 @@ def clipSegOracle (b : Aabb3 Float) (pa pb : V3 Float) (out : List String) : Str
          if nearV3 X (A.add (D.smul a)) sc && nearV3 Y (A.add (D.smul b)) sc then "pass" else "fail wrong-end-points")
   | _ => "fail unparsable-output"
 
+/-- oracle for the segment constructors `Aabb::clip_line` (`ray = false`) / `Aabb::clip_ray` (`ray = true`): with `[a, b]` the exact
+parameter interval of the line (`|t| ≤ f64::MAX`) / ray (`0 ≤ t ≤ f64::MAX`) inside the box, `None ⇔` empty, otherwise the end points
+are `o + a·d` and `o + b·d` (inside the box, on the line, nothing cut off). -/
+def lineSegOracle (ray : Bool) (b : Aabb3 Float) (o d : V3 Float) (out : List String) : String :=
+  if !(finiteBox b && finite3 o && finite3 d) then "skip nonfinite-input" else
+  let B := qaabb3 b; let O := q3 o; let D := q3 d
+  if !validBoxR B then "skip invalid-box" else
+  let lo0 : Rat := if ray then 0 else -bigR
+  let exSeg : Option (Rat × Rat) := match exactLineClip B O D with
+    | none => none
+    | some (l, h) =>
+      let a := max (l.getD lo0) lo0; let b := min (h.getD bigR) bigR
+      if a ≤ b then some (a, b) else none
+  let sc := 1 + boxScale B + maxAbs3 O + maxAbs3 D
+  match out with
+  | "panic" :: _ => "fail panic"
+  | ["none"] =>
+    (match exSeg with
+     | none => "pass"
+     | some (a, b) => if (b - a) * (1 + maxAbs3 D) ≤ tol * sc then "pass" else s!"fail none-but-line-meets-box t∈[{a},{b}]")
+  | "some" :: rest =>
+    (match run (do let x ← pov3; let y ← pov3; pend; pure (x, y)) rest with
+     | none => "fail unparsable-output"
+     | some (x, y) =>
+       if !(finite3 x && finite3 y) then "fail nonfinite-output" else
+       let X := q3 x; let Y := q3 y
+       match exSeg with
+       | none => if inBoxTol B X && inBoxTol B Y then "pass" else "fail some-but-line-misses-box"
+       | some (a, b) =>
+         if !(inBoxTol B X && inBoxTol B Y) then "fail end-point-outside-box" else
+         if nearV3 X (O.add (D.smul a)) sc && nearV3 Y (O.add (D.smul b)) sc then "pass" else "fail wrong-end-points")
+  | _ => "fail unparsable-output"
+
 /-! ### polygon clipping -/
 /-- `q` lies on the closed segment `[a,b]` (within tolerance) -/
 def onSegment (a b p : V3 Rat) (sc : Rat) : Bool :=
@@ -1033,6 +1066,18 @@ def handler (fn : String) : Option Handler :=
       model := fun a => run (do let b ← paabb3; let o ← pv3; let d ← pv3; pure (fparams (clipRayParameters b o d))) a
       oracle := fun a o => match run (do let b ← paabb3; let p ← pv3; let d ← pv3; pure (b, p, d)) a with
         | some (b, p, d) => paramsOracle true b p d o
+        | none => "skip bad-args" }
+  | "clip_line_seg" => some {
+      model := fun a => run (do let b ← paabb3; let o ← pv3; let d ← pv3
+                                pure (match clipLine b o d with | none => "none" | some s => "some " ++ fseg s)) a
+      oracle := fun a o => match run (do let b ← paabb3; let p ← pv3; let d ← pv3; pure (b, p, d)) a with
+        | some (b, p, d) => lineSegOracle false b p d o
+        | none => "skip bad-args" }
+  | "clip_ray_seg" => some {
+      model := fun a => run (do let b ← paabb3; let o ← pv3; let d ← pv3
+                                pure (match clipRay b o d with | none => "none" | some s => "some " ++ fseg s)) a
+      oracle := fun a o => match run (do let b ← paabb3; let p ← pv3; let d ← pv3; pure (b, p, d)) a with
+        | some (b, p, d) => lineSegOracle true b p d o
         | none => "skip bad-args" }
   | "clip_seg" => some {
       model := fun a => run (do let b ← paabb3; let p ← pv3; let p' ← pv3
